@@ -447,6 +447,14 @@ func runPipe(c Case) lib.Result {
 		tags["watchdog-retry"] = true
 		out, hung = pipeAttempt(c, dir, 150*time.Second)
 	}
+	minLen := 1
+	if c.Fmt == "off" {
+		minLen = 64 * c.N // projectors and basis: 2 x N x 4 float64
+	}
+	if !plausibleHeader(c.Fmt, hdr, minLen) {
+		hdr = headerStandIn(c.Fmt) // the reference is written by the implementation too: it must at least look like a header
+		tags["reference-header-implausible"] = true
+	}
 	ob := pobs{N: c.N, Header: len(hdr), Calls: len(out.oks), Stream: len(out.stream), Hung: hung, FirstBad: -1}
 	if out.hdrErr != nil {
 		// a rejected header contributes nothing: the expected stream starts with the records
